@@ -36,6 +36,9 @@ Proof.
   apply app_eq_length in E as [-> ->]; [|assumption]. repeat split.
 Qed.
 
+Lemma Some_inj {A} (a b : A) : Some a = Some b -> a = b.
+Proof. now intros [= ->]. Qed.
+
 Lemma bytes_eq_dec (a b : bytes) : {a = b} + {a <> b}.
 Proof. apply list_eq_dec, N.eq_dec. Qed.
 
@@ -81,7 +84,7 @@ Theorem frost_nonce_input_inj s dg msg rnd s' dg' msg' rnd' :
   frost_nonce_input s dg msg rnd = frost_nonce_input s' dg' msg' rnd' ->
   s = s' /\ dg = dg' /\ msg = msg' /\ rnd = rnd'.
 Proof.
-  intros B B' L L' E. unfold frost_nonce_input in E. injection E as Es Est.
+  intros B B' L L' E. unfold frost_nonce_input in E. apply pair_equal_spec in E as [Es Est].
   apply scalar_bytes_inj in Es; [|assumption|assumption].
   apply frost_stream_inj in Est; [|assumption|assumption]. tauto.
 Qed.
@@ -141,11 +144,11 @@ Section FrostAnyHash.
     - destruct (bytes_eq_dec (frost_stream dg msg rnd) (frost_stream dg' msg' rnd')) as [Est|Nst].
       + left. apply scalar_bytes_inj in Es; [|assumption|assumption].
         apply frost_stream_inj in Est; [|assumption|assumption]. tauto.
-      + right. right. split; [|exact E]. intros [= _ Est]. now apply Nst.
+      + right. right. split; [|exact E]. intro Ep. apply pair_equal_spec in Ep as [_ Est]. now apply Nst.
     - destruct (bytes_eq_dec (KDF frost_kdf_context (scalar_bytes s)) (KDF frost_kdf_context (scalar_bytes s')))
         as [Ek|Nk].
       + right. left. now split.
-      + right. right. split; [|exact E]. intros [= Ek _]. now apply Nk.
+      + right. right. split; [|exact E]. intro Ep. apply pair_equal_spec in Ep as [Ek _]. now apply Nk.
   Qed.
 
   (* RNG failure: the same 32 "random" bytes in both attempts.  Equal nonces then force equal share, context and
@@ -327,7 +330,7 @@ Section Bip340AnyHash.
     \/ collision H (bip340_nonce_preimage H d pk msg a) (bip340_nonce_preimage H d' pk' msg' a).
   Proof.
     intros B B' Lp Lp' E. destruct (bip340_rand_binding _ _ _ _ _ _ _ _ Lp Lp' E) as [(Et & Ep & Em)|C]; auto.
-    left. split; auto. eapply bip340_t_inj_key; eauto using tagged_length.
+    left. split; auto. apply (bip340_t_inj_key d d' (tagged H tag_aux a)); auto using tagged_length.
   Qed.
 
   (* same key: equal nonces force equal aux bytes, public key and message -- or a collision in one of the two
@@ -390,8 +393,6 @@ Qed.
 Lemma ctr_next_lt c : ctr_next c < 2^64.
 Proof. unfold ctr_next. apply N.mod_lt. discriminate. Qed.
 
-Local Ltac modlia := rewrite ?pow2_64 in *; Z.to_euclidean_division_equations_prep || idtac.
-
 Lemma mod_eq_close a b : a <= b -> b < a + 2^64 -> a mod 2^64 = b mod 2^64 -> a = b.
 Proof.
   intros L U E. rewrite pow2_64 in *.
@@ -434,7 +435,7 @@ Theorem bip340_counter_fresh k c : N.of_nat k <= 2^64 -> NoDup (bip340_nil_calls
 Proof.
   intro K. apply NoDup_nth_error. intros i j Hi E. rewrite nil_calls_length in Hi.
   destruct (Nat.lt_ge_cases j k) as [Hj|Hj].
-  - rewrite !nil_calls_nth in E by assumption. injection E as E.
+  - rewrite !nil_calls_nth in E by assumption. apply Some_inj in E.
     apply counter_aux_inj in E; try (apply N.mod_lt; discriminate).
     destruct (Nat.le_ge_cases i j) as [Lij|Lij].
     + apply mod_eq_close in E; lia.
